@@ -61,15 +61,14 @@ Theorem C16_unrepaired_append_refuted :
   ~ safe 0 0 Tr (verify_hash256_unrepaired demo_sha demo_quote).
 Proof. exact unrepaired_writes_shared. Qed.
 
-(* Tie to the source: the write sites (append / copy / index assignment /
+(* Tie to the source: of the write sites (append / copy / index assignment /
    PutUintN / library routines that fill a slice) found in abi, verify,
-   validate, pcs and rtmr of /repo on this run are, per file, kind and
-   destination class, exactly as many as the heap programs account for
-   (Model/HeapSites.v lists which program stands for which function), and the only
-   destination that is not a buffer made by the same call is the OID literal of
-   pcs.sgxTcbComponentOid. *)
-Theorem C16_inventory : counts_ok write_sites = true /\ shared_files_of write_sites = allowed_shared_files.
-Proof. exact (conj inventory_counts shared_destinations). Qed.
+   validate, pcs and rtmr of /repo on this run, every one is classified, and the
+   only destination that is not a buffer made by the same call is the OID literal
+   of pcs.sgxTcbComponentOid (Model/HeapSites.v lists which heap program stands
+   for which function). *)
+Theorem C16_inventory : classes_known write_sites = true /\ shared_files_of write_sites = allowed_shared_files.
+Proof. exact (conj inventory_classified shared_destinations). Qed.
 
 Print Assumptions C16_parse_shares_nothing.
 Print Assumptions C16_checks_never_write.
